@@ -1238,6 +1238,16 @@ example :
   refine ⟨by decide +kernel, by decide +kernel, by decide +kernel, _, rfl, ?_⟩
   decide +kernel
 
+/-- a namespace declared on the primary instance root itself (`attribute::xmlns:p2`) is in scope for the
+    root's name and attributes; a root name with the prefix `xmlns` or an undeclared prefix is rejected -/
+example :
+    (∃ h, header [(S "attribute", .d [(S "xmlns:p2", S "urn:p2"), (S "p2:k", S "v")]), (S "name", .s (S "p2:r"))] {}
+        = .ok h ∧ h.read .rootName = some (S "p2:r") ∧ h.read (.rootAttr (S "p2:k")) = some (S "v")) ∧
+    header [(S "name", .s (S "xmlns:r"))] {} = .error (.err .xmlInvalid) ∧
+    header [(S "name", .s (S "und:r"))] {} = .error (.err .xmlInvalid) ∧
+    (∃ h, header [(S "name", .s (S "jr:r"))] {} = .ok h) := by
+  refine ⟨⟨_, rfl, by decide +kernel⟩, by decide +kernel, by decide +kernel, _, rfl⟩
+
 /-- the duplicate-spelling rule of `dealias_and_group_headers` is order dependent, as in the code -/
 example : (dealias [S "title", S "form_title"] [(S "title", S "a"), (S "form_title", S "b")]) =
       .error (.err (.dupHeader (S "title") (S "form_title"))) ∧
